@@ -200,7 +200,57 @@ def summarize(F, key):
         a = _sig_atoms(ex.local(0, 0, ()))
         if 0 < len(a) <= 24:
             ret = a
-    return {"must": must, "order": order, "args": args, "guards": guards, "silent": silent, "assigns": assigns, "ret": ret}
+    return {"must": must, "order": order, "args": args, "guards": guards, "silent": silent, "assigns": assigns, "ret": ret, "consts": const_census(fn)}
+
+
+INT_TY = re.compile(r"^[ui](8|16|32|64|128|size)$")
+
+
+def const_census(fn):
+    """Multiset of the integer literals (>= 2) and named constant items a function computes with, including integer match arms."""
+    c = collections.Counter()
+
+    def op(o):
+        if o and o.get("k") == "const":
+            v = o["v"]
+            if "v" in v and INT_TY.match(v.get("ty", "")):
+                try:
+                    n = int(v["v"])
+                except ValueError:
+                    return
+                if "item" in v:
+                    c["%s=%d" % (short(v["item"], 2), n)] += 1
+                elif n >= 2:
+                    c[str(n)] += 1
+
+    live = live_blocks(fn)
+    for bi, b in enumerate(fn["blocks"]):
+        if b["cleanup"] or bi not in live:
+            continue
+        for st in b["st"]:
+            if st["k"] == "assign":
+                rv = st["rv"]
+                for f in ("a", "b"):
+                    if isinstance(rv.get(f), dict):
+                        op(rv[f])
+                for o in rv.get("ops", []):
+                    op(o)
+        t = b["term"]
+        if t["k"] == "call":
+            if set((t.get("span") or {}).get("macros", [])) & {"debug", "trace", "info", "warn", "error", "format", "write", "println", "panic", "assert", "assert_eq"}:
+                continue
+            for a in t["args"]:
+                op(a)
+        elif t["k"] == "switch":
+            l = local_of(t["d"])
+            if l is not None and INT_TY.match(fn["locals"][l]["s"]):
+                for v, _t in t["arms"]:
+                    try:
+                        if int(v) >= 2:
+                            c["arm:" + v] += 1
+                    except ValueError:
+                        pass
+    return dict(c)
 
 
 def _derives_from_param(fn, l):
@@ -339,7 +389,7 @@ def generate(F, prop_record):
     out = {}
     for k in scope(F, prop_record):
         s = summarize(F, k)
-        if s["must"] or s["order"] or s["args"] or s["guards"] or s["assigns"] or s["ret"]:
+        if s["must"] or s["order"] or s["args"] or s["guards"] or s["assigns"] or s["ret"] or s["consts"]:
             out[_closure_role(F, k)] = s
     return out
 
@@ -473,6 +523,14 @@ def check(ctx, prop):
                 bad += 1
                 ctx.record("baseline-assign", "R9", k, "%s: the value stored into .%s keeps its origins" % (short(k, 2), field), "violation", [where],
                            ["on the confirmed tree .%s was assigned from %s; now from %s" % (field, alts[:2], ca)], key_detail="assign:" + field)
+        cc = cur.get("consts", {})
+        missing = {kk: n for kk, n in b.get("consts", {}).items() if cc.get(kk, 0) < n}
+        n_assign[0] += len(b.get("consts", {}))
+        if missing:
+            bad += 1
+            ctx.record("baseline-consts", "R9", k, "%s: integer literals, named constants and match-arm values are kept" % short(k, 2), "violation", [where],
+                       ["on the confirmed tree %s computed with %s; these are gone or changed (now: %s)" % (k, missing, {x: n for x, n in cc.items() if x not in b.get("consts", {}) or n != b["consts"][x]})],
+                       key_detail="consts:" + ",".join(sorted(missing))[:80])
         if b.get("ret") and cur.get("ret") is not None:
             n_assign[0] += 1
             if not set(b["ret"]) <= set(cur["ret"]):
